@@ -69,6 +69,7 @@ LibSigs ==
   @@ ("{IR2}" :> Sig(0, <<TStr, Sl(TInt)>>, Nm("IR2", <<>>)))
   @@ ("{IR3}" :> Sig(0, <<TInt, TStr>>, Nm("IR3", <<>>)))                 \* type IR3 = {C: int; D: string}
   @@ ("{IBox}" :> Sig(1, <<SV(1), TStr>>, Nm("IBox", <<SV(1)>>)))
+  @@ ("{IPair}" :> Sig(2, <<SV(1), SV(2)>>, Nm("IPair", <<SV(1), SV(2)>>)))        \* type IPair<A, B> = {Fst: A; Snd: B}
   \* type IU = IC1 of int | IC2 of int*string | IC3      type IOpt<T> = ISome of T | INone
   @@ ("IC1" :> Sig(0, <<TInt>>, Nm("IU", <<>>)))
   @@ ("IC2" :> Sig(0, <<Tu(<<TInt, TStr>>)>>, Nm("IU", <<>>)))
